@@ -479,7 +479,7 @@ def setup():
 def main(tier, seed, replay=None):
     t0 = time.time()
     nomodel = bool(os.environ.get("VERIF_NOMODEL"))      # development only
-    proof = Proof(PROP)
+    proof = Proof(PROP, tier=tier)
     exe = None if nomodel else model_exe()
     rng = random.Random(seed)
     known, fixed = known_findings(PROP)
